@@ -1073,3 +1073,35 @@ M("c17-sparse-hessian-scatter", "C17", AUTODIFF,
 for _m in MUTANTS:
     if _m["id"] in ("c02-dot-both-case-drops-one", "c08-no-revalidation", "c17-mirror-transposed-source", "c15-iterative-degree-linear-combination-constant"):
         _m["expect"] = "analysis-error"
+
+# ----------------------------------------------------------------------------- batch 5 additions
+M("c20-provisional-linearity-verdict", "C20", PROBLEM,
+  '''        if self._objective is None:
+            self._is_linear_cache = False
+            return False
+
+        if not is_linear(self._objective):
+''', '''        self._is_linear_cache = False
+        if self._objective is None:
+            return False
+
+        if not is_linear(self._objective):
+''', "R20.4", "Problem._is_linear_problem:Problem._is_linear_cache")
+MUTANTS.append(dict(id="c14-memo-in-mutable-default", props=["C14"], file=COMPILER, rule="R14.1", construct="optyx.core.compiler._build_evaluator_iterative(built)", edits=[
+  ('''def _build_evaluator_iterative(
+    expr: Expression,
+    var_indices: dict[str, int],
+) -> Callable''', '''def _build_evaluator_iterative(
+    expr: Expression,
+    var_indices: dict[str, int],
+    built: dict = {},
+) -> Callable'''),
+  ('''                result_stack.append(lambda x, f=operand_fn, np_f=numpy_func: np_f(f(x)))
+            continue
+''', '''                result_stack.append(lambda x, f=operand_fn, np_f=numpy_func: np_f(f(x)))
+                if id(node) in built:
+                    result_stack[-1] = built[id(node)]
+                built[id(node)] = result_stack[-1]
+            continue
+'''),
+]))
